@@ -95,9 +95,19 @@ def rule_a(ctx):
         conv = [a for st, a in ch if st == "_convert_signal"]
         ctx.ob(R, f.qname, f"restoration->model = {flag}: the model also receives the original difference", bool(conv) and len(conv[0]) == 2 and conv[0][1] in (f"self._subtract_background({PROBE})", f"self._subtract_background({probe_x})"), str(conv)[:200], f.node)
         ctx.ob(R, f.qname, f"restoration->model = {flag}: the end of the chain is what is returned", e is not None, f"returned {RES}", f.node)
-    ctx.ob(R, f.qname, "the order flag is the constructor option 'restoration -> model'", any(
-        isinstance(s, ast.Assign) and norm(s.targets[0]) == "self.first_restoration_then_model" and norm(s.value) == "kwargs.get('restoration -> model', True)"
-        for s in ast.walk(m.method(k, "__init__").node)), "", f.node)
+    flag_defs = [s for s in ast.walk(m.method(k, "__init__").node) if isinstance(s, ast.Assign) and norm(s.targets[0]) == "self.first_restoration_then_model"]
+    ok_flag = any(norm(s.value) == "kwargs.get('restoration -> model', True)" for s in flag_defs)
+    # named contradiction: the option is read, but an omitted option does not give the documented default order (restoration first)
+    bad_default = None
+    for s in flag_defs:
+        for c in ast.walk(s.value):
+            if isinstance(c, ast.Call) and isinstance(c.func, ast.Attribute) and c.func.attr in ("get", "pop") and c.args and isinstance(c.args[0], ast.Constant) and c.args[0].value == "restoration -> model":
+                dflt = c.args[1] if len(c.args) > 1 else None
+                if dflt is None or (isinstance(dflt, ast.Constant) and dflt.value is not True):
+                    bad_default = norm(s.value)
+    ctx.ob(R, f.qname, "the order flag is the constructor option 'restoration -> model'", ok_flag,
+           f"`{bad_default}`: when the option is omitted the flag is falsy, i.e. the model runs before the restoration although the documented default is restoration first" if bad_default else "",
+           flag_defs[0] if flag_defs else f.node, evidence=bool(bad_default))
     # identity-when-None stages
     for stage, attr in (("_reduce_signal", "signal_reduction"), ("_balance_signal", "balancing"), ("_restore_signal", "restoration"), ("_convert_signal", "model")):
         g = m.method(k, stage)
